@@ -501,8 +501,10 @@ class Compiler(object):
                 if 'default' not in member:
                     continue
 
-                resolved_member = self.resolve_type_descriptor(member,
-                                                               module_name)
+                (resolved_member,
+                 resolved_module_name) = self.resolve_type_descriptor_and_module_name(
+                     member,
+                     module_name)
 
                 if resolved_member['type'] == 'BIT STRING':
                     self.pre_process_default_value_bit_string(member,
@@ -512,10 +514,15 @@ class Compiler(object):
                     self.pre_process_default_value_octet_string(member)
 
                 if resolved_member['type'] == 'ENUMERATED':
-                    self.pre_process_default_value_enumerated(member,
-                                                              resolved_member)
+                    self.pre_process_default_value_enumerated(
+                        member,
+                        resolved_member,
+                        resolved_module_name)
 
-    def pre_process_default_value_enumerated(self, member, resolved_member):
+    def pre_process_default_value_enumerated(self,
+                                             member,
+                                             resolved_member,
+                                             resolved_module_name):
         """The specification may already have been compiled with another
         numeric_enums setting, so the default may be given as name or
         number. Store the representation used by this compilation.
@@ -524,7 +531,15 @@ class Compiler(object):
 
         default = member['default']
 
-        for item in resolved_member['values']:
+        # Numbers given as value references are looked up in the
+        # module defining the enumeration.
+        try:
+            values = self.get_enum_values(resolved_member,
+                                          resolved_module_name)
+        except CompileError:
+            values = resolved_member['values']
+
+        for item in values:
             if item == EXTENSION_MARKER:
                 continue
 
@@ -794,6 +809,18 @@ class Compiler(object):
         return type_name
 
     def resolve_type_descriptor(self, type_descriptor, module_name):
+        return self.resolve_type_descriptor_and_module_name(
+            type_descriptor,
+            module_name)[0]
+
+    def resolve_type_descriptor_and_module_name(self,
+                                                type_descriptor,
+                                                module_name):
+        """Returns the type descriptor given type descriptor resolves to,
+        and the name of the module it is found in.
+
+        """
+
         type_name = type_descriptor['type']
 
         try:
@@ -810,7 +837,7 @@ class Compiler(object):
         except CompileError:
             pass
 
-        return type_descriptor
+        return type_descriptor, module_name
 
     def get_type_descriptors(self, type_descriptors, type_names):
         result = []
